@@ -68,11 +68,67 @@ pub fn dump_comp(comp: &mut CompoundFile<Cursor<Vec<u8>>>) -> String {
     s
 }
 
+/// The same image once more with the smallest stream buffer (so that a stream of a few kilobytes already
+/// needs several windows): every stream is read in 700-byte requests, and when a read fails the client carries
+/// on on the same handle — position query, relative seek, buffered read, the next read — as far as three
+/// errors.  Nothing may panic; the position must stay inside the stream.  Returns markers only (the logical
+/// dump is `dump_comp`'s).
+fn reads_after_errors(bytes: &[u8], strict: bool) -> String {
+    use std::io::{BufRead, Seek, SeekFrom};
+    let mut s = String::new();
+    let o = OpenOptions::new().max_buffer_size(1024);
+    let r = if strict { o.strict().open_with(Cursor::new(bytes.to_vec())) } else { o.open_with(Cursor::new(bytes.to_vec())) };
+    let Ok(mut comp) = r else { return s };
+    let entries: Vec<Entry> = comp.walk().collect();
+    for e in entries.iter().filter(|e| e.is_stream()) {
+        let Ok(mut st) = comp.open_stream(e.path()) else { continue };
+        let len = st.len();
+        let mut buf = [0u8; 700];
+        let (mut errs, mut rounds) = (0, 0u64);
+        loop {
+            rounds += 1;
+            if rounds > (len / 700 + 20).min(3000) {
+                break;
+            }
+            match st.read(&mut buf) {
+                Ok(0) => break,
+                Ok(_) => {
+                    if errs > 0 {
+                        // after an error every further call is still judged
+                        if let Ok(p) = st.stream_position() {
+                            if p > len {
+                                s.push_str(&format!(" AFTERERR(position {} of {})", p, len));
+                            }
+                        }
+                        let _ = st.seek(SeekFrom::Current(0));
+                    }
+                }
+                Err(_) => {
+                    errs += 1;
+                    if let Ok(p) = st.stream_position() {
+                        if p > len {
+                            s.push_str(&format!(" AFTERERR(position {} of {})", p, len));
+                        }
+                    }
+                    let _ = st.seek(SeekFrom::Current(0));
+                    let _ = st.fill_buf().map(|b| b.len());
+                    let _ = st.seek(SeekFrom::Current(0));
+                    if errs >= 3 {
+                        break;
+                    }
+                }
+            }
+        }
+    }
+    s
+}
+
 pub fn open_dump(bytes: Vec<u8>, strict: bool) -> String {
     crate::util::progress_image(if strict { "open strict" } else { "open permissive" }, &bytes);
     let (tx, rx) = mpsc::channel();
     std::thread::spawn(move || {
-        let r = catch(|| {
+        let again = bytes.clone();
+        let r = catch(move || {
             // the ways of asking for a mode are equivalent: rotate through them (an option set earlier in
             // the builder chain must survive the later ones)
             static VARIANT: std::sync::atomic::AtomicUsize = std::sync::atomic::AtomicUsize::new(0);
@@ -94,7 +150,11 @@ pub fn open_dump(bytes: Vec<u8>, strict: bool) -> String {
                 }
             };
             match r {
-                Ok(mut comp) => dump_comp(&mut comp),
+                Ok(mut comp) => {
+                    let mut d = dump_comp(&mut comp);
+                    d.push_str(&reads_after_errors(&again, strict));
+                    d
+                }
                 Err(e) => format!("err {}", err_kind(&e)),
             }
         });
